@@ -524,6 +524,12 @@ func (fd *Client) BatchGetItem(ctx context.Context, input *dynamodb.BatchGetItem
 
 			item, err := executeGetRequest(ctx, fd, getInput)
 			if err != nil {
+				// a table that does not exist fails the call; it is not an unprocessed key
+				var tableNotFound *types.ResourceNotFoundException
+				if errors.As(err, &tableNotFound) {
+					return nil, err
+				}
+
 				unprocessedKeys = append(unprocessedKeys, req)
 
 				continue
